@@ -25,12 +25,15 @@ type c11RelayCase struct {
 	Part    string `json:"part"` // "relayed-then-asked"
 	Records int    `json:"relayed_records"`
 	Asker   string `json:"asker"` // "relayer" | "third-party"
+	// Known: the relayed records are newer records (higher sequence number, another port) of nodes A
+	// already holds as liveness-checked entries: the new endpoint is hearsay all the same
+	Known bool `json:"known_nodes_new_port,omitempty"`
 }
 
 func c11RelayCases() (cs []c11RelayCase) {
 	for _, n := range []int{1, 3} {
 		for _, asker := range []string{"relayer", "third-party"} {
-			cs = append(cs, c11RelayCase{"relayed-then-asked", n, asker})
+			cs = append(cs, c11RelayCase{"relayed-then-asked", n, asker, false}, c11RelayCase{"relayed-then-asked", n, asker, true})
 		}
 	}
 	return
@@ -45,7 +48,13 @@ func c11RelayRun(r *mc.Report, c c11RelayCase, finish func(string)) {
 		// hearsay records: found by key search so that they lie at log-distance 256/255 from B (any
 		// distance A's lookup asks B for is fine: B answers with them whatever was asked)
 		var relayed []*enode.Node
+		var known []*enode.Node
 		for i := 0; len(relayed) < c.Records; i++ {
+			if c.Known {
+				known = append(known, signedNode(detKey(4100+i), 1, net.IP{10, 0, 0, byte(50 + i)}, 9500+i))
+				relayed = append(relayed, signedNode(detKey(4100+i), 2, net.IP{10, 0, 0, byte(50 + i)}, 9600+i))
+				continue
+			}
 			relayed = append(relayed, signedNode(detKey(4100+i), 1, net.IP{10, 0, 0, byte(50 + i)}, 9500+i))
 		}
 		var b *mnode
@@ -73,6 +82,11 @@ func c11RelayRun(r *mc.Report, c c11RelayCase, finish func(string)) {
 		}})
 		third := newMNode(w, mnodeOpts{keyIdx: 43, versions: []uint8{0, 1}, puppet: func(enode.ID, []byte) []byte { return nil }})
 		a.P.AddEnr(b.Self())
+		for _, k := range known {
+			if !a.P.VerifTable().InsertDirect(k, true) {
+				r.EngineError("hearsay: the table refused a known node")
+			}
+		}
 		// A asks B for each relayed record's distance (what a lookup for a target next to it does)
 		learned := 0
 		for _, x := range relayed {
@@ -112,7 +126,7 @@ func c11RelayRun(r *mc.Report, c c11RelayCase, finish func(string)) {
 			}
 			for _, enc := range nodes.Enrs {
 				n, err := enrNode(enc)
-				if err == nil && n.ID() == x.ID() {
+				if err == nil && n.ID() == x.ID() && (!c.Known || n.UDP() == x.UDP()) {
 					offered++
 					viol("only-liveness-checked-entries", "handleFindNodes:relayed-record", fmt.Sprintf("A learned %s only from B's NODES reply (nobody answers at its address) and offers it to the %s at distance %d", x.ID().TerminalString(), c.Asker, d))
 				}
